@@ -20,6 +20,22 @@ structure AllS (F : FloatOps) (n : Nat) : Prop where
 syntax "ssz" : tactic
 macro_rules | `(tactic| ssz) => `(tactic| (simp at *; omega))
 
+theorem stmtF_declValue {B : List String} {pos tok : Nat}
+    {specs : List (Option Nat × List (Pos × String) × List (Option Expr))}
+    (h : StmtF B (.declValue pos tok specs) = true) :
+    ∃ iota ipos x e, specs = [(iota, [(ipos, x)], [some e])] ∧ (ExprF (bnd B) e && tok == tVar && x != "_") = true := by
+  unfold StmtF at h
+  split at h
+  all_goals first
+    | (rename_i heq; cases heq; done)
+    | (rename_i heq _; cases heq; done)
+    | (cases h; done)
+    | skip
+  rename_i heq
+  simp only [Stmt.declValue.injEq] at heq
+  obtain ⟨rfl, rfl, rfl⟩ := heq
+  exact ⟨_, _, _, _, rfl, h⟩
+
 theorem step_stmts {F : FloatOps} {n : Nat} (ih : AllS F n) : ∀ ss, sizeOf ss < n + 1 → ∀ B, StmtsF B ss = true →
     GoodC F B (defsL B ss) (needL ss) (compileStmts ss) (fun fuel env => Sem.execList F fuel env ss)
   | [], _, B, _ => good_nil F B
@@ -125,6 +141,14 @@ theorem step_stmt {F : FloatOps} {n : Nat} (ih : AllS F n) (st : Stmt) (hsz : si
                   obtain ⟨op, hop⟩ := Option.isSome_iff_exists.mp hk.1
                   exact good_compound F B pos p x r tok op hr (by simpa using hk.2) hop
             | _ => cases h
+  | declValue pos tok specs =>
+    obtain ⟨iota, ipos, x, e, rfl, h'⟩ := stmtF_declValue h
+    simp only [Bool.and_eq_true] at h'
+    have ht : tok = tVar := by simpa using h'.1.2
+    subst ht
+    have e1 : defsOf B (.declValue pos tVar [(iota, [(ipos, x)], [some e])]) = x :: B := rfl
+    rw [e1]
+    exact good_varDecl F B pos ipos iota x e h'.1.1 (by simpa using h'.2)
   | _ => cases h
 
 theorem allS (F : FloatOps) : ∀ n, AllS F n
